@@ -1,0 +1,65 @@
+//go:build verif
+
+// Contracts for the deductive verifier in /verif (govc).  This file contains only
+// comments: with or without the build tag it adds no code to the package.
+
+package tcell
+
+// ---------------------------------------------------------------------------
+// C16: colour conversions (bit-exact, full 64/32-bit domains)
+// ---------------------------------------------------------------------------
+
+//@ spec xtermLevel(k uint16) uint16 = k == 0 ? 0 : 55 + 40*k
+//@ spec xtermSys(i uint16) uint32 =
+//@     i == 0 ? 0x000000 : i == 1 ? 0x800000 : i == 2 ? 0x008000 : i == 3 ? 0x808000 :
+//@     i == 4 ? 0x000080 : i == 5 ? 0x800080 : i == 6 ? 0x008080 : i == 7 ? 0xC0C0C0 :
+//@     i == 8 ? 0x808080 : i == 9 ? 0xFF0000 : i == 10 ? 0x00FF00 : i == 11 ? 0xFFFF00 :
+//@     i == 12 ? 0x0000FF : i == 13 ? 0xFF00FF : i == 14 ? 0x00FFFF : 0xFFFFFF
+//@ spec xterm256(i uint16) uint32 =
+//@     i < 16 ? xtermSys(i) :
+//@     i < 232 ? (u32(xtermLevel((i-16)/36)) << 16) | (u32(xtermLevel(((i-16)/6)%6)) << 8) | u32(xtermLevel((i-16)%6)) :
+//@     u32(8 + 10*(i-232)) * 0x010101
+
+//@ func Color.Valid
+//@   arith bv
+//@   ensures result == (c&ColorValid != 0)
+
+//@ func Color.IsRGB
+//@   arith bv
+//@   ensures result == (c&ColorValid != 0 && c&ColorIsRGB != 0)
+
+//@ func Color.Hex
+//@   arith bv
+//@   ensures [invalid] c&ColorValid == 0 ==> result == -1
+//@   ensures [rgb] c&ColorValid != 0 && c&ColorIsRGB != 0 ==> result == int32(c & 0xffffff)
+//@   ensures [table] c&ColorValid != 0 && c&ColorIsRGB == 0 ==> result == (has(ColorValues, c) ? ColorValues[c] : -1)
+//@   ensures [range] result == -1 || (0 <= result && result <= 0xffffff)
+
+//@ func Color.RGB
+//@   arith bv
+//@   ensures [invalid] c&ColorValid == 0 ==> result0 == -1 && result1 == -1 && result2 == -1
+//@   ensures [rgb] c&ColorValid != 0 && c&ColorIsRGB != 0 ==>
+//@              result0 == int32((c >> 16) & 0xff) && result1 == int32((c >> 8) & 0xff) && result2 == int32(c & 0xff)
+//@   ensures [range] (result0 == -1 && result1 == -1 && result2 == -1) ||
+//@              (0 <= result0 && result0 <= 255 && 0 <= result1 && result1 <= 255 && 0 <= result2 && result2 <= 255)
+
+//@ func Color.TrueColor
+//@   arith bv
+//@   ensures [invalid] c&ColorValid == 0 ==> result == ColorDefault
+//@   ensures [rgb] c&ColorValid != 0 && c&ColorIsRGB != 0 ==> result == c
+//@   ensures [table] c&ColorValid != 0 && c&ColorIsRGB == 0 && has(ColorValues, c) ==>
+//@              result == (ColorValid | ColorIsRGB | u64(u32(ColorValues[c])))
+
+//@ func NewHexColor
+//@   arith bv
+//@   ensures [roundtrip] 0 <= v && v <= 0xffffff ==> result == (ColorValid | ColorIsRGB | uint64(v))
+//@   ensures [valid] result&ColorValid != 0 && result&ColorIsRGB != 0
+
+//@ func NewRGBColor
+//@   arith bv
+//@   ensures [exact] result == (ColorValid | ColorIsRGB | (uint64(r & 0xff) << 16) | (uint64(g & 0xff) << 8) | uint64(b & 0xff))
+
+//@ func PaletteColor
+//@   arith bv
+//@   ensures [exact] 0 <= index && index < 256 ==> result == (ColorValid | uint64(index))
+//@   ensures [valid] result&ColorValid != 0
